@@ -20,7 +20,9 @@ CONSTANTS MaxChain
 \* "whilecond": the payload stands in a block that is the *condition* of a while loop
 Ctxs == <<"while", "for", "block", "match", "lambda", "task", "whilecond">>
 Payloads == <<"break", "continue", "return", "returnval", "read-let", "read-var", "assign-var", "compound-var", "read-loopvar",
-              "push-array", "index-compound-user", "nested-lambda-capture", "match-on-captured", "try">>
+              "push-array", "index-compound-user", "nested-lambda-capture", "match-on-captured", "try",
+              \* statements after a bare `return` in the same block (dead code that still declares locals / closures)
+              "return-then-local", "return-then-closure">>
 IsFnBoundary(c) == c \in {"lambda", "task"}
 IsLoop(c) == c \in {"while", "for"}
 
@@ -41,7 +43,7 @@ MustReject(ch, p) == p \in {"break", "continue"} /\ ~LoopInBody(ch) /\ ~\E i \in
 InnerBoundary(ch) == IF \E i \in 1..Len(ch) : IsFnBoundary(ch[i])
                      THEN ch[CHOOSE i \in 1..Len(ch) : IsFnBoundary(ch[i]) /\ \A j \in (i + 1)..Len(ch) : ~IsFnBoundary(ch[j])] ELSE "none"
 Applicable(fnw, ch, p) == /\ (p = "read-loopvar" => HasFor(ch))
-                          /\ (p \in {"return", "returnval"} => InnerBoundary(ch) # "task")
+                          /\ (p \in {"return", "returnval", "return-then-local", "return-then-closure"} => InnerBoundary(ch) # "task")
                           /\ (p = "try" => fnw \/ \E i \in 1..Len(ch) : ch[i] = "lambda")
 
 RECURSIVE Ind(_)
@@ -64,6 +66,8 @@ PayloadLines(p, ind, lastFor) ==
     [] p = "nested-lambda-capture" -> <<ind \o "let inner = (z: int) -> z + olet", ind \o "println(inner(1))">>
     [] p = "match-on-captured" -> <<ind \o "let m = match olet { 5 -> 1, _ -> 2 }">>
     [] p = "try" -> <<ind \o "let t = maybe(1)?">>
+    [] p = "return-then-local" -> <<ind \o "return", ind \o "let dead = 3", ind \o "println(dead)">>
+    [] p = "return-then-closure" -> <<ind \o "return", ind \o "let dead = 4", ind \o "let g = () -> dead + olet", ind \o "println(g())">>
 
 RECURSIVE Wrap(_, _, _, _)
 \* lines of chain ch[k..] around the payload, at nesting depth d
